@@ -81,7 +81,8 @@ Fixpoint snap_eqb (a b : snapshot) : bool :=
   | _, _ => false
   end.
 
-Definition is_running (m : mach) : bool := match m with Running => true | _ => false end.
+(* once Execute has returned nothing more is observed of the machine *)
+Definition is_done (m : mach) : bool := match m with Done => true | _ => false end.
 
 Definition step (types : list N) (prog : program) (s : astate) (e : event) : option astate :=
   match e with
@@ -102,7 +103,7 @@ Definition step (types : list N) (prog : program) (s : astate) (e : event) : opt
       Some {| cur := cur s; ph := ph s; mach_ := mach_ s; cancelled := true;
               abuf := abuf s; hist := hist s |}
   | MInit k snap =>
-      match ph s with
+      match (if is_done (mach_ s) then PSignalled else ph s) with
       | PSpawned =>
           if Nat.eqb k (cur s) && Nat.ltb k (length prog) && snap_eqb snap (snapshot_of types (hist s))
           then Some {| cur := cur s; ph := PInitiating; mach_ := mach_ s; cancelled := cancelled s;
@@ -111,7 +112,7 @@ Definition step (types : list N) (prog : program) (s : astate) (e : event) : opt
       | _ => None
       end
   | MInitRet k =>
-      match ph s with
+      match (if is_done (mach_ s) then PSignalled else ph s) with
       | PInitiating =>
           if Nat.eqb k (cur s)
           then Some {| cur := cur s;
@@ -121,7 +122,7 @@ Definition step (types : list N) (prog : program) (s : astate) (e : event) : opt
       | _ => None
       end
   | MCan k b =>
-      match ph s with
+      match (if is_done (mach_ s) then PSignalled else ph s) with
       | PPolling =>
           if Nat.eqb k (cur s) && Bool.eqb b (can_transition (nth_ast prog k) (hist s))
           then Some {| cur := cur s; ph := if b then PSignalled else PPolling;
